@@ -266,7 +266,7 @@ def jobs(tier):
         J("iint.iintDivide.identity.b_%s" % tag, "h_iintDivide_const", ["iintDivide", "iintTimesS", "bintLT"],
           st("u") + st("v") + st("q") + st("r"), cls="B", kind="obligation" if decided else "refute",
           bound="dividend 2..3 digits (every value), divisor the constant 0x%s" % tag.replace("_", ""), unwind=UB,
-          timeout=600 if decided else (120 if tier != "thorough" else 400), mem_gb=12,
+          timeout=600 if decided else (80 if tier != "thorough" else 400), mem_gb=12,
           defs=["-DDV_B0=" + b0, "-DDV_B1=" + b1])
     J("canary.iint.iintDivide", "h_iintDivide_const", ["iintDivide"], st("u") + st("v") + st("q") + st("r"), cls="B", kind="canary",
       unwind=UB + ["--stop-on-fail"], timeout=900, mem_gb=12, defs=["-DCANARY_iintDivide", "-DV_NO_VREACH"])
